@@ -14,7 +14,7 @@ from vlib import c06_ops, c06_rules, mmgen, runner, sut
 PID = "C06"
 RULE = (
     "Hypothesis: a valid vlib.mmgen model (2-5 classes with diamonds, constrained primitives, enumerations, constants, "
-    "pattern functions, typed invariants, plain docstrings) + exactly ONE operator of vlib.c06_ops, drawn uniformly from a "
+    "pattern functions, typed invariants, plain docstrings) + exactly ONE operator of vlib.c06_ops from a "
     "table keyed by the rule of the property it breaks: inheritance cycle (length 1-4), base that is missing / a constant / "
     "a function / an enumeration, duplicate type / constant / function / property / method, reserved type / property / "
     "method / constant / function names (frozen copy of the documented lists, random case), I_ and Must_ prefixes, mutable* "
@@ -26,8 +26,11 @@ RULE = (
     "Independent rule checker vlib.c06_rules (Python ast over the text, no repository code) must flag the rule on the mutant "
     "and nothing on the base model. Oracle: checker says 'breaks R' => run.load_model returns an error; acceptance = "
     "violation accepted:<R>; an exception is counted (crash:<bucket>, C01's domain), not flagged. Four further rules of the "
-    "implementation that the property does not list (x-...) are measured only. Non-trivial = mutant parses as Python and the "
-    "checker flags exactly the intended rule; distinct by mutant text."
+    "implementation that the property does not list (x-...) are measured only. Every rule of the table gets the same number of "
+    "cases (one Hypothesis campaign per rule and replica). Second stage, exhaustive: every name of the documented reserved "
+    "lists (365 type, 329 member, 376 constant/function names) once per entity kind it is reserved for, in a minimal model, "
+    "lower-case where Python allows it else capitalised (30 %: random case). Non-trivial = mutant parses as Python and the "
+    "checker flags exactly the intended rule of the property; distinct by mutant text."
 )
 ASSUMPTIONS = [
     "the reserved names are the documented lists of the pinned revision (vlib/c06_reserved.py, a frozen copy); a name is reserved when its lower-cased form is listed",
@@ -103,7 +106,7 @@ def evaluate(rule: str, text: str, base: pathlib.Path) -> Tuple[str, List[Tuple[
 
 
 def shard(ctx: runner.Ctx) -> None:
-    n = ctx.n(4_500, 200_000)
+    n = ctx.n(4_000, 200_000)
     counter = {"i": 0}
 
     def one(case: Dict[str, Any]) -> None:
@@ -133,8 +136,10 @@ def shard(ctx: runner.Ctx) -> None:
             ctx.notes[v] = ctx.notes.get(v, 0) + 1
             return
         others = sorted(k for k in flagged if k != rule)
-        exactly_one = not others
+        # the rules outside the property's list do not count for "exactly one rule of the property"
+        exactly_one = not [k for k in others if not k.startswith("x-")] or rule in EXTRA and not others
         cls = [f"rule:{rule}", f"{rule}:{v.split('@')[0]}", "exactly-one-rule" if exactly_one else "several-rules"]
+        cls.extend(f"several:{rule}+{o}" for o in others)
         if v.startswith("crash:"):
             cls.append(v)
             ctx.notes["crashes (C01)"] = ctx.notes.get("crashes (C01)", 0) + 1
@@ -153,6 +158,61 @@ def shard(ctx: runner.Ctx) -> None:
         # the rules which the property does not list get a quarter of the share
         k = per if rule in ASSERTED else max(1, per // 4)
         runner.hyp_run(cases(rule), one, k, ctx.base_seed * 1000 + u)
+    reserved_stage(ctx)
+
+
+FOOTER = '\n\n__version__ = "V1"\n\n__xml_namespace__ = "https://example.com/ns/1"\n'
+TEMPLATES = {
+    "reserved-type": "class {w}(DBC):\n    pass",
+    "reserved-property": "class Something(DBC):\n    {w}: int\n\n    def __init__(self, {w}: int) -> None:\n        self.{w} = {w}",
+    "reserved-method": "class Something(DBC):\n    @implementation_specific\n    def {w}(self) -> int:\n        pass",
+    "reserved-constant": "{w}: int = constant_int(\n    value=1,\n)",
+    "reserved-function": "@verification\ndef {w}(text: str) -> bool:\n    pattern = \"^a$\"\n    return match(pattern, text) is not None",
+}
+TEMPLATE_WORDS = {"self", "int", "bool", "str", "text", "pattern", "match", "something", "dbc"}
+
+
+def reserved_units() -> List[Tuple[str, str]]:
+    """Every documented reserved name, once per kind of entity it is reserved for."""
+    from vlib import c06_reserved
+
+    out = []  # type: List[Tuple[str, str]]
+    for rule, pool in (("reserved-type", c06_reserved.RESERVED_TYPE_NAMES),
+                       ("reserved-property", c06_reserved.RESERVED_MEMBER_NAMES),
+                       ("reserved-method", c06_reserved.RESERVED_MEMBER_NAMES),
+                       ("reserved-constant", c06_reserved.RESERVED_CONSTANT_OR_FUNCTION_NAMES),
+                       ("reserved-function", c06_reserved.RESERVED_CONSTANT_OR_FUNCTION_NAMES)):
+        out.extend((rule, w) for w in sorted(pool))
+    return out
+
+
+def reserved_stage(ctx: runner.Ctx) -> None:
+    """Enumeration: each reserved name in a minimal model (lower-case where Python allows it, else capitalised)."""
+    import keyword
+    import random
+
+    rnd = random.Random(ctx.seed)
+    units = reserved_units()
+    for i, (rule, w) in enumerate(units):
+        if i % ctx.nshards != ctx.shard:
+            continue
+        variants = [w, w.capitalize(), w.upper()]
+        if keyword.iskeyword(w) or w in TEMPLATE_WORDS:
+            variants = variants[1:]
+        v = variants[0] if rnd.random() < 0.7 else rnd.choice(variants)
+        if keyword.iskeyword(v) or not v.isidentifier():
+            ctx.exclude("reserved-name-not-usable-as-identifier")
+            continue
+        text = mmgen.HEADER + "\n" + TEMPLATES[rule].format(w=v) + FOOTER
+        verdict_, fails, flagged = evaluate(rule, text, ctx.scratch)
+        if verdict_ in ("not-python", "checker-failed", "rule-not-broken"):
+            ctx.exclude(f"{verdict_}:{rule}")
+            ctx.notes[verdict_] = ctx.notes.get(verdict_, 0) + 1
+            continue
+        others = sorted(k for k in flagged if k != rule)
+        ctx.case(not others, key=text, classes=[f"enumerated:{rule}", f"enumerated:{verdict_.split('@')[0]}"])
+        for b, m in fails:
+            ctx.fail(b, {"rule": rule, "text": text}, m + f"\nreserved name {w!r} used as {v!r}")
 
 
 def replay(case: Any) -> List[Tuple[str, str]]:
